@@ -1,8 +1,9 @@
 #!/bin/bash
-# usage: goal.sh FILE LINE  -- show the proof state after the first LINE lines of FILE
+# usage: goal.sh FILE LINE [TAIL] -- show the proof state after the first LINE lines of FILE
+here="$(cd "$(dirname "$0")" && pwd)"
 f=$1; n=$2
 tmp=$(mktemp /tmp/goalXXXX.v)
 head -n "$n" "$f" > "$tmp"
 echo "Show." >> "$tmp"
-cd /verif/coq && timeout 120 coqtop -Q theories Dyce -batch -l "$tmp" 2>&1 | tail -${3:-40}
+cd "$here" && timeout 120 coqtop -Q theories Dyce -batch -l "$tmp" 2>&1 | tail -${3:-40}
 rm -f "$tmp"
